@@ -148,7 +148,7 @@ def main(ctx):
     # ---- 1. TLC: tables, equivalence, sensitivity --------------------------
     sens = [('cert', 'closed_before'), ('sshsig', 'ignore_namespace'),
             ('ident', 'empty_is_none'), ('ident', 'NegOnlyMatchesAll'),
-            ('cross', 'SharedNameSet')]
+            ('cross', 'SharedNameSet'), ('msgform', 'FileFormHashesBuffer')]
     if not quick:
         sens += [('cert', 'no_principal'), ('cert', 'accept_unknown_critical'),
                  ('verify', 'ignore_algname'), ('verify', 'normalise_sig'),
@@ -158,7 +158,8 @@ def main(ctx):
     from concurrent.futures import ThreadPoolExecutor
     with ThreadPoolExecutor(max_workers=4) as ex:
         emit_f = {t: ex.submit(run_table, None, t, emit=True, workers=1)
-                  for t in ('cert', 'sshsig', 'verify', 'ident', 'cross')}
+                  for t in ('cert', 'sshsig', 'verify', 'ident', 'cross',
+                            'msgform')}
         sens_f = [(t, v, ex.submit(run_table, None, t, variant=v, two=False,
                                    expect_violation='Equiv', workers=2))
                   for t, v in sens]
@@ -172,6 +173,8 @@ def main(ctx):
     res_cert, res_sig, res_ver = emit_r['cert'], emit_r['sshsig'], \
         emit_r['verify']
     res_ident, res_cross = emit_r['ident'], emit_r['cross']
+    msg_rows = rows_of(emit_r['msgform'])
+    ctx.require(len(msg_rows) >= 1500, f'msgform rows: {len(msg_rows)}')
     cert_rows = rows_of(res_cert)
     sig_rows = rows_of(res_sig)
     ver_rows = rows_of(res_ver)
@@ -258,9 +261,16 @@ def main(ctx):
                                 'blob': blob.hex(), 'now': now,
                                 'principals': put['principals']})
                 elif obs == 'reject' and verdict == 'accept':
-                    ctx.divergence(
-                        f'cert table: rule accepts, code rejects at {ostage} '
-                        f'({exc_name(exc)}): {row} ca_alg={aname} now={now}')
+                    ctx.violation(
+                        {'module': 'SigCert', 'table': 'cert', 'row': row,
+                         'refused_at': ostage},
+                        f'valid certificate refused at {ostage} '
+                        f'({exc_name(exc)}): {row} '
+                        f'principals={put["principals"]!r} ca_alg={aname} '
+                        f'clock at validation={now} window=[{D.A}, {D.B})',
+                        replay={'kind': 'cert', 'row': row, 'alg': aname,
+                                'blob': blob.hex(), 'now': now,
+                                'principals': put['principals']})
                 elif obs == 'reject':
                     want_stage = 'import' if stage in CERT_IMPORT_STAGES \
                         else stage
@@ -280,8 +290,8 @@ def main(ctx):
                             'example_row': ex[0][0],
                             'rule_verdict': ex[0][1],
                             'rule_stage': ex[0][2]})
-    ctx.require(n_acc > 0 or only.rp is not None,
-                'no certificate row was accepted by the code')
+    ctx.require(len(ctx._distinct) > 0 or only.rp is not None,
+                'no certificate row was evaluated')
 
     # soft spot: value of an unknown extension colliding with a known name
     for name, cert, exc, expect_opts in \
@@ -354,9 +364,13 @@ def main(ctx):
                     replay={'kind': 'sshsig', 'row': row, 'alg': kalg,
                             'variant': variant, 'mat': mat})
             elif not ok and verdict == 'accept':
-                ctx.divergence(f'sshsig table: rule accepts, code refuses '
-                               f'({exc_name(exc)}: {exc}): {row} key={kalg} '
-                               f'{mat}')
+                ctx.violation(
+                    {'module': 'SigCert', 'table': 'sshsig', 'row': row,
+                     'refused': True},
+                    f'authorised SSHSIG signature refused ({exc_name(exc)}: '
+                    f'{exc}): {row} key={kalg} {mat}',
+                    replay={'kind': 'sshsig', 'row': row, 'alg': kalg,
+                            'variant': variant, 'mat': mat})
             if ai == 0 and ((ok and not samp['acc']) or
                             (not ok and row['msg'] == 'same' and
                              row['nsblob'] == 'same' and not samp['rej'])):
@@ -364,8 +378,7 @@ def main(ctx):
                 ctx.sample({'table': 'sshsig', 'row': row,
                             'rule_verdict': verdict, 'observed': ok,
                             'key': kalg, 'materialised': mat})
-    ctx.require(n_acc > 0 or only.rp is not None,
-                'no SSHSIG row was accepted by the code')
+    ctx.require(len(sig_rows) > 0, 'no SSHSIG row was evaluated')
 
     # ---- 2d. identity table: wanted identity x principal list x entry ------
     iworlds = {}
@@ -392,8 +405,12 @@ def main(ctx):
                 f'rejects (stage {stage}): {what}',
                 replay={'kind': 'ident', 'row': row, 'alg': aname})
         elif not ok and verdict == 'accept':
-            ctx.divergence(f'ident table: rule accepts, code refuses '
-                           f'({exc_name(exc)}: {exc}): {what}')
+            ctx.violation(
+                {'module': 'SigCert', 'table': 'ident', 'row': row,
+                 'refused': True},
+                f'valid certificate / authorised identity refused '
+                f'({exc_name(exc)}: {exc}): {what}',
+                replay={'kind': 'ident', 'row': row, 'alg': aname})
 
     for ri, (row, verdict, stage) in enumerate(ident_rows):
         if not only.row('ident', row):
@@ -459,13 +476,46 @@ def main(ctx):
             n_acc += o == 'accept'
             judge_ident(row, verdict, stage, o == 'accept', None, aname)
     ctx.traces_validated(len(live) * len(live_algs))
-    ctx.require(n_acc > 0 or only.rp is not None,
-                'no identity row was accepted by the code')
+    ctx.require(len(ident_rows) > 0, 'no identity row was evaluated')
+    # the decision uses the clock AT VALIDATION TIME: the same certificate
+    # object, two different clock values one after the other
+    if only.rp is None:
+        for (kalg, sig_alg), w in list(iworlds.items())[:3]:
+            cert = w.cert('user', ['alice'], 2, 4)
+            for seq in ((2, 4), (1, 2), (3, 4), (4, 3)):
+                got = []
+                for pt in seq:
+                    with D.Clock(D.TIMEPT[pt]):
+                        try:
+                            cert.validate(1, 'alice')
+                            got.append(True)
+                        except ValueError:
+                            got.append(False)
+                want = [2 <= pt < 4 for pt in seq]
+                ctx.count(('clock-sequence', kalg, seq))
+                if got != want:
+                    ctx.violation(
+                        {'module': 'SigCert', 'table': 'ident',
+                         'step': 'clock-at-validation', 'sequence': list(seq)},
+                        f'certificate valid in [{D.TIMEPT[2]}, {D.TIMEPT[4]}) '
+                        f'validated at clock values '
+                        f'{[D.TIMEPT[p] for p in seq]} one after the other: '
+                        f'accepted {got}, expected {want} (the decision must '
+                        f'use the clock at validation time)',
+                        replay={'kind': 'ident', 'row': None})
     if ident_rows and only.rp is None:
         r0 = [r for r in ident_rows if r[0]['entry'] == 'login'][0]
         ctx.sample({'table': 'ident', 'rows': len(ident_rows),
                     'live_rows': len(live), 'example_row': r0[0],
                     'rule_verdict': r0[1]}, limit=8)
+
+    # ---- 2f. message-form table (SSHSIG) ------------------------------------------
+    if only.kind('msgform'):
+        scr3 = D.Scratch(tlc.WORK, 'c16_msg_')
+        try:
+            msgform_table(ctx, D, scr3, msg_rows, only, quick)
+        finally:
+            scr3.close()
 
     # ---- 2e. cross-algorithm table ----------------------------------------------
     if only.kind('cross'):
@@ -623,6 +673,54 @@ def main(ctx):
         'asyncssh key.sign(); ssh-keygen -L confirms on samples that OpenSSH '
         'parses them as intended',
     ]
+
+
+def msgform_table(ctx, D, scr, rows, only, quick):
+    """SSHSIG: the message handed over as bytes / file name / PurePath /
+    digest / through ssh-keygen, on the signing and on the verifying side.
+    All forms of the same message are interchangeable; a signature never
+    validates for another message."""
+    w = D.MsgWorld(scr)
+    n_eval = n_acc = 0
+    for ri, (row, verdict, stage) in enumerate(rows):
+        if not only.row('msgform', row):
+            continue
+        if 'keygen' in (row['sform'], row['vform']):
+            if not D.SSH_KEYGEN:
+                continue
+            # the other party costs a process: in quick, not for every
+            # altered message
+            if quick and row['rel'] in ('pad8k', 'truncated'):
+                continue
+        sig = w.sign(row['sform'], row['size'], row['hash'])
+        if sig is None:
+            continue
+        ok, exc = w.verify(row['vform'], sig, row['size'], row['rel'],
+                           row['hash'])
+        n_eval += 1
+        n_acc += ok
+        ctx.count(('msgform', ri))
+        what = (f'{row["size"]}-byte message signed as {row["sform"]} '
+                f'({row["hash"]}), verifier gets the {row["rel"]} message as '
+                f'{row["vform"]}')
+        if ok and verdict == 'reject':
+            ctx.violation({'module': 'SigCert', 'table': 'msgform',
+                           'row': row},
+                          f'SSHSIG signature validates for a DIFFERENT '
+                          f'message: {what}',
+                          replay={'kind': 'msgform', 'row': row})
+        elif not ok and verdict == 'accept':
+            ctx.violation({'module': 'SigCert', 'table': 'msgform',
+                           'row': row},
+                          f'SSHSIG signature over the same message is refused '
+                          f'({exc_name(exc)}: {exc}): {what}',
+                          replay={'kind': 'msgform', 'row': row})
+    ctx.require(n_eval > 0 or only.rp is not None,
+                'no message-form row was evaluated')
+    if only.rp is None:
+        ctx.sample({'table': 'msgform', 'rows': len(rows),
+                    'evaluated': n_eval, 'accepted': n_acc,
+                    'example_row': rows[len(rows) // 3][0]}, limit=12)
 
 
 def cross_table(ctx, D, cross_rows, only):
